@@ -250,3 +250,16 @@ Example ex_pe_trailing_refused :
   | _ => False
   end.
 Proof. vm_compute. repeat split; reflexivity. Qed.
+
+(* the hypotheses of the Crypto section are consistent: an instance (keys and certificates = Z, always-valid signatures, the
+   identity as digest, a self-delimiting unary encoding of the blob whose decoder ignores trailing bytes) satisfies all of
+   them together with the size premise for signing ex_pe, and signing succeeds — so pe_sign_then_verify applies to it *)
+Example crypto_hypotheses_satisfiable :
+  let H := fun (_ : Z) (m : bytes) => m in let pub := fun k : Z => k in let sign := fun (_ : Z) (_ : bytes) => 0 in
+  let vrfy := fun (_ : Z) (_ : bytes) (_ : Z) => true in let tbs := fun (_ : Z) (d : bytes) => d in
+  (forall k m, vrfy (pub k) m (sign k m) = true) /\
+  (forall b n, ex_deser (ex_ser b ++ zeros n) = Some b) /\ (forall b, all_bytes (ex_ser b) = true) /\
+  all_bytes ex_pe = true /\
+  (forall pre, hashin ex_pe = Ok pre -> zlen (ex_ser (mksig Z Z Z pub sign tbs 7 1 (H 1 pre))) < 4294967296 - 40) /\
+  exists g, (pre <- hashin ex_pe ;; embed ex_pe (ex_ser (mksig Z Z Z pub sign tbs 7 1 (H 1 pre)))) = Ok g.
+Proof. exact FmtPE.ProofsB.crypto_hypotheses_satisfiable. Qed.
